@@ -234,6 +234,10 @@ func c01Scenarios(tier string) []*world.Scenario {
 	}
 	// more replies / fragments than one vectored write takes (1024 slices)
 	out = append(out, BigBatch("C01", 1100, false, 1), BigBatch("C01", 1100, true, 1), BigBatch("C01", 2100, false, 0))
+	// exactly 1024 / 2048 (and one less, one more) fragments for one connection and replies in one flush
+	for _, n := range []int{1022, 1023, 1024, 1025, 2047, 2048} {
+		out = append(out, BigBatchOneNode("C01", n, 0))
+	}
 	// multi-key requests that can only be routed in part (one key in an unowned range) are answered locally
 	// while an already routed fragment is still in flight; everything after them must still be answered in order
 	out = append(out, c01Partial(tier)...)
